@@ -123,7 +123,7 @@ func runChunksThroughListener(c *engine.Ctx) {
 			}
 		}
 	}
-	layoutSeq := 0
+	layoutSeq, layoutNo := 0, 0
 	for _, lo := range layouts {
 		var chunks []string
 		var sentGen *types.GenerateServerCertificatesRequest
@@ -180,7 +180,13 @@ func runChunksThroughListener(c *engine.Ctx) {
 		default:
 			list = placeAt(list, resolve(lo.Foreign), "h2", "http/1.1")
 		}
-		// the preference entry relative to the chunk it precedes in the final list
+		// the preference entry relative to the chunk it precedes in the final list; in every fourth layout it
+		// names a root the server does not have (the request is still recombined and judged; the handshake then
+		// ends without a certificate)
+		pref := pref
+		if layoutNo++; layoutNo%4 == 0 {
+			pref = world.CertPref("current")
+		}
 		switch p := resolve(lo.Pref); {
 		case p == "first" || p == "last" || p == "none":
 			list = placeAt(list, p, pref)
@@ -329,6 +335,37 @@ func runChunksThroughListener(c *engine.Ctx) {
 		default:
 			r.Count("listener_recombined_equal:client-configs", 1)
 			r.Count(fmt.Sprintf("client_configs_state_bytes:%d(alpn %d)", size, total), 1)
+		}
+		// the same request through the library's own dialer (protocol.Dial of the enrolled node)
+		mu.Lock()
+		gotGen = nil
+		mu.Unlock()
+		conn, derr := protocol.Dial(s.Ctx, node.Store, lw.Addr, node.NodeOpts(copts...)...)
+		r.Eval(desc+" (protocol.Dial)", true)
+		if derr != nil {
+			r.Violation("listener-recombination-differs:auth-dial:not-recovered", fmt.Sprintf("protocol.Dial of an enrolled node with %d bytes of state (%d ALPN bytes, which fit a ClientHello) failed: %v", size, total, derr), map[string]any{"state_bytes": size, "alpn_bytes": total})
+			continue
+		}
+		rec2, werr2 := lw.Wait(conn.LocalAddr().String())
+		conn.Close()
+		if werr2 != nil {
+			r.Inconclusive("watchdog waiting for the server side (chunks through listener, dial)")
+			return
+		}
+		if rec2.Returned && rec2.Conn != nil {
+			rec2.Conn.Close()
+		}
+		mu.Lock()
+		gg = gotGen
+		mu.Unlock()
+		got2 := new(structpb.Struct)
+		switch {
+		case len(gg) == 0:
+			r.Violation("listener-recombination-differs:auth-dial:not-recovered", fmt.Sprintf("the listener did not recover the request protocol.Dial sent for %d bytes of state (%d ALPN bytes): %v", size, total, rec2.AcceptErr), wit)
+		case proto.Unmarshal(gg[len(gg)-1].ClientState, got2) != nil || !proto.Equal(got2, st):
+			r.Violation("listener-recombination-differs:auth-dial", fmt.Sprintf("the state recombined by the listener differs from the %d bytes protocol.Dial sent", size), wit)
+		default:
+			r.Count("listener_recombined_equal:auth-dial", 1)
 		}
 	}
 	// the library's own fetch path: protocol.Dial of a node without credentials splits its fetch
